@@ -60,6 +60,29 @@ func TestC02(t *testing.T) {
 		spec := drawSched(rt)
 		every := rapid.IntRange(1, 40).Draw(rt, "snapshot_every")
 
+		// sometimes the stage folder is not empty: an earlier in-place application of some other patch
+		// was abandoned before Commit and left its staged files behind (longer ones, here)
+		if rapid.IntRange(0, 5).Draw(rt, "stalestage") == 0 {
+			stale := Tree{}
+			for _, pth := range pair.New.Files() {
+				if oe, ok := pair.Old[pth]; ok && oe.Kind != KFile {
+					continue
+				}
+				stale[pth] = &Entry{Kind: KFile, Data: Bytes(fnv64([]byte(pth)), len(pair.New[pth].Data)+1+int(fnv64([]byte(pth))%5000))}
+			}
+			ok := true
+			for pth := range stale {
+				for d := filepath.Dir(pth); d != "." && d != "/"; d = filepath.Dir(d) {
+					if _, isFile := stale[d]; isFile {
+						ok = false
+					}
+				}
+			}
+			if ok && len(stale) > 0 {
+				Must(stale.Normalize().Materialize(stage), "materialize stale stage")
+				Ev.Fault("stale_files_in_stage_folder", len(stale.Files()))
+			}
+		}
 		before := MustSnapshot(inDir)
 		var inv string
 		reads := 0
@@ -136,6 +159,10 @@ func TestC02(t *testing.T) {
 				class = "C02/kindchange-destroys-transposition-source"
 			}
 			Violation(rt, class, "directory after Commit differs from the new build: %s (patch %s, maporder %d, broken rename %v)\nops %v", d, desc, spec.MapOrder, broken, pair.Ops)
+			return
+		}
+		if d := pair.New.DiffExec(got); d != "" {
+			Violation(rt, "C02/wrong-mode", "directory after Commit differs from the new build in permission bits: %s (patch %s)\nops %v", d, desc, pair.Ops)
 			return
 		}
 		dirfile := len(pair.DirFile) > 0
